@@ -17,4 +17,17 @@ PROPS = {
         "assumptions": ["uint is 64 bits wide (amd64)", "table sizes up to 2^60 words in the theorems; up to 2^24 exercised on the code"],
         "explanation": "theorems over all hashes / all op sequences; model tied to code by replaying recorded traces of the real sketch on the extracted model and a sample in-kernel",
     },
+    "C03": {
+        "props_files": ["Props/C03.v"],
+        "go_tests": ["TestVerifExpiry"],
+        "level": "proof",
+        "rule": "generated (set time, ttl, optional second Set, read time, cached-clock lag) tuples through the real Store/LoadingStore "
+                "API under virtual time: TTLs 1ns..MaxInt64 (overflowing), read instants within +-2ns of the deadline, of 2^30ns tick "
+                "boundaries and of the 30s window edge; non-trivial = case with >= 3 steps; distinct = sha1 of the case",
+        "trusted_base": [KERNEL, EXTRACT, HARNESS, "hook H1 (virtual clock, build tag verif)",
+                         "modelled, not verified: int64 arithmetic as Z with explicit two's-complement wrap; time.Duration as int64 ns"],
+        "assumptions": ["the cached clock is refreshed at least once per 30 s window (ticker goroutine gets scheduled; after the F1 fix it no longer waits for the policy lock)",
+                        "clock readings below 2^62 ns (146 years of uptime)"],
+        "explanation": "theorems about saturatingAdd (regenerated from clock.go) and the read decision; Store-level behaviour compared step by step with the model",
+    },
 }
